@@ -15,6 +15,8 @@ VERIF = os.path.dirname(os.path.dirname(os.path.abspath(__file__)))
 
 def one(sid):
     d = os.path.join(VERIF, "seeded", sid)
+    if json.load(open(os.path.join(d, "meta.json"))).get("superseded_by_repair"):
+        return sid, "superseded", "the construct this seed edits was rebuilt by a later repair (see meta.json); verdicts kept as recorded"
     out = tempfile.mktemp(suffix=".json")
     r = subprocess.run(["/venv/bin/python", os.path.join(VERIF, "tools", "seedcheck.py"), os.path.join(d, "patch.diff"),
                         "--json", out], capture_output=True, text=True)
@@ -36,7 +38,9 @@ def main():
     ids = sys.argv[1:] or sorted(os.listdir(os.path.join(VERIF, "seeded")))
     with concurrent.futures.ThreadPoolExecutor(max_workers=8) as ex:
         for sid, fired, extra in ex.map(one, ids):
-            if fired is None:
+            if fired == "superseded":
+                print(f"{sid}: superseded -- {extra}")
+            elif fired is None:
                 print(f"{sid}: FAILED {extra}")
             else:
                 tgt = json.load(open(os.path.join(VERIF, "seeded", sid, "meta.json")))["breaks_property"]
